@@ -9,6 +9,7 @@ import (
 	iofs "io/fs"
 	"os"
 	"sort"
+	"strings"
 
 	"github.com/diskfs/go-diskfs/filesystem"
 	"github.com/diskfs/go-diskfs/filesystem/ext4"
@@ -260,6 +261,14 @@ func walkAll(b *c18Base, d *memdev.Dev, readFiles bool) (n int, err error) {
 		}
 		depth++
 		if de.IsDir() {
+			// a damaged image may contain a directory cycle: like any careful walker, stop descending at a depth
+			// no legitimate tree of these images has
+			if strings.Count(p, "/") > 24 {
+				if firstErr == nil {
+					firstErr = fmt.Errorf("directory nesting deeper than 24 levels at %s", p[:40])
+				}
+				return iofs.SkipDir
+			}
 			return nil
 		}
 		if _, ie := de.Info(); ie != nil && firstErr == nil {
@@ -355,9 +364,9 @@ func newC18Target(quick bool) *c18Target {
 						t.cases = append(t.cases, c18Case{Base: bi, Patch: bytePatch{o, []byte{v}}, Fix: true, Label: "byte+csum"})
 					}
 				}
-				if !quick || o%4 == 0 {
+				if o%2 == 0 {
 					for _, w := range []int{2, 4} {
-						if o+int64(w) > rg.Hi || (quick && w == 2) {
+						if o+int64(w) > rg.Hi || (quick && w == 2) || o%int64(w) != 0 {
 							continue
 						}
 						for pi, pat := range lePatterns(w, b.Size) {
